@@ -110,7 +110,8 @@ def evaluate(ctx, tasks, results, prop):
                     masks.append(blocks)
                 logs = [{"created": [], "gathers": [{"grp": [x // S for x in gth["grp"]], "inb": gth["inb"], "outb": gth["outb"]}
                                                      for gth in res["logs"][r]["gathers"]]} for r in col]
-                cases.append({"W": len(col), "GS": GS, "owner": owner, "seg": res["info"][str(col[0])]["seg"], "masks": masks, "logs": logs})
+                cases.append({"W": len(col), "GS": GS, "pgs": [{"owner": owner, "seg": res["info"][str(col[0])]["seg"]}],
+                              "masks": [[m] for m in masks], "logs": logs})
                 where.append(ti)
         tasks[ti]["_res"] = res
     verdicts = tlc.oracle("DistTraceRun", C06.TRACE, cases, tag=f"{prop}-trace")[0] if cases else []
